@@ -70,7 +70,7 @@ def RenderIdempotent (Accepts : List Tok → Prop) : Prop :=
 
 -- `RenderRetokenizes ParserAccepts` itself is not provable: (1) without a bound on the number of output
 --   lines it is false (KNOWN_FINDINGS retok:too-many-lines); (2) there is no model of lang/parse.
---   PROVED below: `render_retokenizes : RenderRetokenizesBelowMaxLine LinesAccept` — the clause in full with
+--   PROVED below: `render_retokenizes : RenderRetokenizesBelowMaxLine (linesOK …)` — the clause in full with
 --   the line bound and with `Accepts toks := linesOK (toks.length + 1) toks`, the part of the parser's
 --   guarantees that matters (the harness checks `ParserAccepts toks → linesOK` on every accepted source, op
 --   `rok`); `render_retokenizes_of_source` (the same without the closure conjunct) and
